@@ -528,6 +528,9 @@ def rule_L6(ctx):
         import anchors
         if p == "std::io::_print" and (anchors.is_builtin_fn(f) or f.module.startswith("builtins")):
             r.ok()
+        elif f.full and any(c.loc == loc and anchors.driver_only_stdout(prog, f, c) for c in f.calls()):
+            r.inst("%s: driver output on a path that runs no script" % f.path)
+            r.ok()
         else:
             r.fail("%s | stdout-writer callee=%s" % (f.path, p),
                    "%s writes to stdout through %s; only the print builtin "
